@@ -14156,3 +14156,160 @@ func isNamedDeref(t types.Type, name string) bool {
 	nt, ok := t.(*types.Named)
 	return ok && nt.Obj().Name() == name
 }
+
+// E11JoinCoincidence: Join welds two paths only when the end of one is the start of the other.
+func E11JoinCoincidence(c *core.Ctx, r *core.Report) {
+	r.Rule("E11.join-coincidence", "Path.Join continues p with q's commands only when p ends (open) where q starts; otherwise it appends q with its MoveTo. The condition of that early return is evaluated over the four valuations of \"the x coordinates are equal\" and \"the y coordinates are equal\" (an Equal or == between the x values, resp. the y values, of p's last point and q's first point; closedness taken as false): it must hold exactly when at least one coordinate differs. `!Equal(x…) && !Equal(y…)` welds points that share one coordinate — Dash uses Join to reunite the two parts of a dash around the start of a closed sub-path, and a square that starts inside a gap gets its leading gap drawn")
+	p := c.MustPkg("")
+	info := p.TypesInfo
+	fd := core.MustFuncDecl(p, "Path.Join")
+	recv := info.Defs[fd.Recv.List[0].Names[0]]
+	q := paramObj(info, fd, 0)
+	locals := singleDefs(info, fd.Body)
+	// axis: 0 = x, 1 = y, -1 = neither; side: which path
+	var axisOf func(e ast.Expr, depth int) (int, types.Object)
+	axisOf = func(e ast.Expr, depth int) (int, types.Object) {
+		e = core.Unparen(e)
+		if depth > 4 {
+			return -1, nil
+		}
+		switch x := e.(type) {
+		case *ast.IndexExpr:
+			if !core.IsPathDataSel(info, x.X) {
+				return -1, nil
+			}
+			root := core.RootIdent(x.X)
+			if root == nil {
+				return -1, nil
+			}
+			o := core.ObjOf(info, root)
+			if v, ok := core.ConstInt(info, x.Index); ok { // q.d[1], q.d[2]
+				if v == 1 {
+					return 0, o
+				}
+				if v == 2 {
+					return 1, o
+				}
+				return -1, nil
+			}
+			if be, ok := core.Unparen(x.Index).(*ast.BinaryExpr); ok && be.Op == token.SUB { // p.d[len(p.d)-3]
+				if v, ok := core.ConstInt(info, be.Y); ok {
+					if v == 3 {
+						return 0, o
+					}
+					if v == 2 {
+						return 1, o
+					}
+				}
+			}
+		case *ast.SelectorExpr:
+			ax := -1
+			if x.Sel.Name == "X" {
+				ax = 0
+			} else if x.Sel.Name == "Y" {
+				ax = 1
+			}
+			if ax < 0 {
+				return -1, nil
+			}
+			// a Point local: p.Pos() / Point{q.d[1], q.d[2]} / q.StartPos()
+			if id, ok := core.Unparen(x.X).(*ast.Ident); ok {
+				if d, ok := locals[core.ObjOf(info, id)]; ok {
+					var o types.Object
+					ast.Inspect(d, func(k ast.Node) bool {
+						if kid, ok := k.(*ast.Ident); ok {
+							if ko := core.ObjOf(info, kid); ko == recv || ko == q {
+								o = ko
+							}
+						}
+						return true
+					})
+					return ax, o
+				}
+			}
+			if call, ok := core.Unparen(x.X).(*ast.CallExpr); ok {
+				if root := core.RootIdent(call.Fun); root != nil {
+					return ax, core.ObjOf(info, root)
+				}
+			}
+		}
+		return -1, nil
+	}
+	var target *ast.IfStmt
+	for _, st := range fd.Body.List {
+		is, ok := st.(*ast.IfStmt)
+		if !ok || !allPathsReturn(is.Body) {
+			continue
+		}
+		mentions := false
+		ast.Inspect(is.Cond, func(k ast.Node) bool {
+			if e, ok := k.(ast.Expr); ok {
+				if ax, _ := axisOf(e, 0); ax >= 0 {
+					mentions = true
+				}
+			}
+			return true
+		})
+		if mentions {
+			target = is
+		}
+	}
+	key := "canvas.Path.Join|appended unless the end of p is the start of q"
+	r.Count("E11.join-coincidence", 1)
+	if target == nil {
+		r.Fail("E11.join-coincidence", key, c.Pos(fd.Pos()), "the early return that compares the end of the receiver with the start of the argument was not found")
+		return
+	}
+	bad := ""
+	for _, eqX := range []bool{true, false} {
+		for _, eqY := range []bool{true, false} {
+			env := func(e ast.Expr) tri {
+				var a, b ast.Expr
+				neg := false
+				switch x := e.(type) {
+				case *ast.CallExpr:
+					if f := core.CalleeOf(info, x); f != nil && f.Name() == "Equal" && len(x.Args) == 2 {
+						a, b = x.Args[0], x.Args[1]
+					} else if f != nil && (f.Name() == "Closed") {
+						return tFalse
+					} else if f != nil && f.Name() == "Equals" && len(x.Args) == 1 {
+						return triOf(eqX && eqY)
+					}
+				case *ast.BinaryExpr:
+					if x.Op == token.EQL || x.Op == token.NEQ {
+						// p.d[len(p.d)-1] == CloseCmd: the receiver is open
+						if core.ConstName(info, x.Y) == "CloseCmd" || core.ConstName(info, x.X) == "CloseCmd" {
+							return triOf(x.Op == token.NEQ)
+						}
+						a, b, neg = x.X, x.Y, x.Op == token.NEQ
+					}
+				}
+				if a == nil {
+					return tUnknown
+				}
+				ax1, o1 := axisOf(a, 0)
+				ax2, o2 := axisOf(b, 0)
+				if ax1 < 0 || ax1 != ax2 || o1 == o2 {
+					return tUnknown
+				}
+				v := eqX
+				if ax1 == 1 {
+					v = eqY
+				}
+				return triOf(v != neg)
+			}
+			got := evalBool(info, target.Cond, env)
+			want := triOf(!(eqX && eqY))
+			if got == tUnknown {
+				bad = "the condition `" + c.Src(target.Cond) + "` cannot be evaluated"
+			} else if got != want && bad == "" {
+				bad = fmt.Sprintf("with x %s and y %s the paths are %s, the condition `%s` says otherwise", map[bool]string{true: "equal", false: "different"}[eqX], map[bool]string{true: "equal", false: "different"}[eqY], map[bool]string{true: "joined although the points differ", false: "appended although the points coincide"}[got == tFalse], c.Src(target.Cond))
+			}
+		}
+	}
+	if bad == "" {
+		r.OK("E11.join-coincidence", key, c.Pos(target.Pos()), "")
+	} else {
+		r.Fail("E11.join-coincidence", key, c.Pos(target.Pos()), bad)
+	}
+}
